@@ -76,7 +76,7 @@ ONNX_NAME = {
     "LabelEncoder": "LabelEncoder", "Scaler": "Scaler", "Binarizer": "Binarizer",
     "BitAnd": "BitwiseAnd", "BitOr": "BitwiseOr", "BitXor": "BitwiseXor", "BitNot": "BitwiseNot",
     "Gelu": "Gelu", "DFT": "DFT",
-    "ConstScalar": "Constant", "Div": "Div", "LeakyRelu": "LeakyRelu",
+    "ConstScalar": "Constant", "Div": "Div", "LeakyRelu": "LeakyRelu", "Gather": "Gather",
 }
 ML_OPS = ("LabelEncoder", "Scaler", "Binarizer")  # domain ai.onnx.ml
 MIN_OPSET = {"BitAnd": 18, "BitOr": 18, "BitXor": 18, "BitNot": 18, "Gelu": 20, "DFT": 20}
@@ -89,6 +89,11 @@ MAG_FLOAT = 1e25
 
 class HarnessError(Exception):
     """Trouble inside this library (generator bug, spox internal not observable): never a verdict."""
+
+
+class PartialOp(Exception):
+    """The numpy evaluator was asked to evaluate a partial operator outside its domain (Gather index
+    out of range …): the dataflow has no value for this binding."""
 
 
 class ConstructorShapeMismatch(Exception):
@@ -708,6 +713,10 @@ def typecheck(prog) -> list[str]:
                 ok = a[0] == b[0] == "f32" and sh is not None and same_ty(out[0], ty("f32", sh[0], sh[1]))
             elif op == "LeakyRelu":
                 ok = T(ins[0])[0] == "f32" and same_ty(out[0], T(ins[0]))
+            elif op == "Gather":  # partial: the index must lie in [-n, n)
+                t_, i_ = T(ins[0]), T(ins[1])
+                ok = (not t_[2] and concrete(t_) and len(t_[1]) == 1 and i_[0] == "i64" and i_[1] == []
+                      and same_ty(out[0], ty(t_[0], [], i_[2])))
             elif op == "LabelEncoder":
                 x = T(ins[0])
                 a_ = n["attrs"]
@@ -907,6 +916,11 @@ def eval_numpy(prog, binding: dict[int, np.ndarray]):
                 out = [np.array(v_, dtype=dt_)]
             elif op == "Div":
                 out = [np.divide(inp(0), inp(1)).astype(np.float32)]
+            elif op == "Gather":
+                t_, i_ = inp(0), int(np.asarray(inp(1)).reshape(-1)[0])
+                if not -t_.shape[0] <= i_ < t_.shape[0]:
+                    raise PartialOp(f"Gather index {i_} outside [-{t_.shape[0]}, {t_.shape[0]})")
+                out = [np.asarray(t_[i_])]
             elif op == "LeakyRelu":
                 x = inp(0)
                 out = [np.where(x < 0, np.float32(n["attrs"]["alpha"]) * x, x).astype(np.float32)]
@@ -1074,14 +1088,19 @@ def eval_numpy(prog, binding: dict[int, np.ndarray]):
     return outs, stats
 
 
-def random_binding(prog, rng: random.Random) -> dict[int, np.ndarray]:
+def random_binding(prog, rng: random.Random, index: Optional[int] = None) -> dict[int, np.ndarray]:
+    """`index`: position of the binding in the run — arguments with an `attrs.cycle` take
+    `cycle[index % len]` (used to make zero-trip / out-of-domain combinations certain)."""
     b = {}
     for a in main_args(prog):
         n = prog["nodes"][a]
         t = n["ty"][0]
         shape = [d for d in t[1]]
         cnt = int(np.prod(shape)) if shape else 1
-        if n["attrs"].get("range") == "trip":
+        if index is not None and n["attrs"].get("cycle"):
+            cyc = n["attrs"]["cycle"]
+            vals = [cyc[index % len(cyc)]] * cnt
+        elif n["attrs"].get("range") == "trip":
             vals = [rng.randint(0, 3) for _ in range(cnt)]
         elif n["attrs"].get("range") == "special":
             vals = [rng.choice([0.0, -0.0, 1.0, -1.5, 2.0, -3.0, 0.5]) for _ in range(cnt)]
@@ -1312,6 +1331,8 @@ def realise(prog, rng: random.Random, style: str = "lazy", twins: bool = False) 
             outs = [const_scalar(op, n["attrs"])]
         elif o == "Div":
             outs = [op.div(a[0], a[1])]
+        elif o == "Gather":
+            outs = [op.gather(a[0], a[1], axis=0)]
         elif o == "LeakyRelu":
             outs = [op.leaky_relu(a[0], alpha=n["attrs"]["alpha"])]
         elif o == "LabelEncoder":
@@ -2417,3 +2438,73 @@ def deep_programs(rng: random.Random, count: int = 1) -> Iterator[tuple[dict, st
             cur = add("Add" if i % 2 else "Sub", [(cur, 0), (k, 0)], tys=[V])
         loop = add("Loop", [(n, 0), None, (x, 0)], [{"args": [it, cn, acc], "res": [[cn, 0], [cur, 0]]}], tys=[V])
         yield {"nodes": nodes, "outputs": [[loop, 0]], "opset": 17}, f"loopbody{depth}"
+
+
+
+def partial_programs() -> Iterator[tuple[dict, str]]:
+    """Family aimed at *when* a body is evaluated: a PARTIAL operator (`Gather(table, k)`, defined only
+    for −n ≤ k < n) that uses closed-over values only sits inside a body that does not run for some
+    binding — a Loop with a run-time trip count of 0 or an initially false condition, an If branch not
+    taken, nested combinations — while `k` is out of range exactly then.  The dataflow has a value
+    (the body is not evaluated), so the model must run and return it.  Bindings: use
+    `random_binding(prog, rng, index)` — the arguments carry `cycle`s: binding 0 = (no iteration, bad
+    index), 1 = (iterates, good index), 2 = (no iteration, good index).  Yields (prog, tag)."""
+    V = ty("i64", [N])
+    for shape in ("loop", "loop-if", "if-loop", "loop-cond", "loop-loop", "if"):
+        for table_closed in (False, True):
+            for chain in (False, True):
+                nodes: list[dict] = []
+
+                def add(op, ins=(), subs=(), attrs=None, tys=()):
+                    nodes.append({"op": op, "ins": [list(r) if r else None for r in ins], "subs": list(subs), "attrs": dict(attrs or {}), "ty": [list(t) for t in tys]})
+                    return len(nodes) - 1
+
+                x = add("arg", attrs={"role": "main"}, tys=[V])
+                k = add("arg", attrs={"role": "main", "cycle": [5, 1, 1]}, tys=[ty("i64", [])])
+                n = add("arg", attrs={"role": "main", "range": "trip", "cycle": [0, 2, 0]}, tys=[ty("i64", [])])
+                c = add("arg", attrs={"role": "main", "cycle": [False, True, False]}, tys=[ty("bool", [])])
+                c1 = add("arg", attrs={"role": "main", "cycle": [False, True, False]}, tys=[ty("bool", [1])])
+                table = (add("Neg", [(x, 0)], tys=[V]), 0) if table_closed else (x, 0)
+                idx = (k, 0)
+                if chain:
+                    one = add("Constant", attrs={"value": [0], "scalar": True, "uid": 1, "layout": "C"}, tys=[ty("i64", [])])
+                    idx = (add("Add", [(k, 0), (one, 0)], tys=[ty("i64", [])]), 0)
+                P = (add("Gather", [table, idx], tys=[ty("i64", [])]), 0)
+
+                def loop(m, cond0, body_of):
+                    it = add("arg", attrs={"role": "formal"}, tys=[ty("i64", [], True)])
+                    cn = add("arg", attrs={"role": "formal"}, tys=[ty("bool", [], True)])
+                    acc = add("arg", attrs={"role": "formal"}, tys=[V])
+                    res = body_of((acc, 0))
+                    return (add("Loop", [m, cond0, (x, 0)], [{"args": [it, cn, acc], "res": [[cn, 0], list(res)]}], tys=[V]), 0)
+
+                def plus_p(base):
+                    return (add("Add", [base, P], tys=[V]), 0)
+
+                def iff(cond, t, e):
+                    return (add("If", [(cond, 0)], [{"args": [], "res": [list(t)]}, {"args": [], "res": [list(e)]}], tys=[V]), 0)
+
+                if shape == "loop":
+                    out = loop((n, 0), None, plus_p)
+                elif shape == "loop-if":
+                    out = loop((n, 0), None, lambda acc: iff(c, plus_p(acc), acc))
+                elif shape == "if-loop":
+                    out = iff(c, loop((n, 0), None, plus_p), (x, 0))
+                elif shape == "loop-cond":
+                    two = add("Constant", attrs={"value": [2], "scalar": True, "uid": 2, "layout": "C"}, tys=[ty("i64", [])])
+                    out = loop((two, 0), (c1, 0), plus_p)
+                elif shape == "loop-loop":
+                    one_ = add("Constant", attrs={"value": [1], "scalar": True, "uid": 3, "layout": "C"}, tys=[ty("i64", [])])
+
+                    def outer_body(acc):
+                        it = add("arg", attrs={"role": "formal"}, tys=[ty("i64", [], True)])
+                        cn = add("arg", attrs={"role": "formal"}, tys=[ty("bool", [], True)])
+                        a2 = add("arg", attrs={"role": "formal"}, tys=[V])
+                        r = plus_p((a2, 0))
+                        return (add("Loop", [(one_, 0), None, acc], [{"args": [it, cn, a2], "res": [[cn, 0], list(r)]}], tys=[V]), 0)
+
+                    out = loop((n, 0), None, outer_body)
+                else:
+                    out = iff(c, plus_p((x, 0)), (x, 0))
+                yield ({"nodes": nodes, "outputs": [list(out)], "opset": 17},
+                       f"{shape}{'/closed-table' if table_closed else ''}{'/index-chain' if chain else ''}")
